@@ -128,7 +128,7 @@ func (s *session) project() tf.M {
 			reqs = append(reqs, tf.M{
 				"present": true, "vals": vals, "min": int(rq.MinCount), "rh": int(rq.RequestHeight),
 				"rt": int(rq.RequestTime - s.w.Cfg.GenesisTime.Unix()),
-				"ok": rq.OracleScriptID == world.ScriptOK3 || rq.OracleScriptID == world.ScriptOK1 || rq.OracleScriptID == world.ScriptOKNil || rq.OracleScriptID == world.ScriptW4,
+				"ok": rq.OracleScriptID == world.ScriptOK3 || rq.OracleScriptID == world.ScriptOK1 || rq.OracleScriptID == world.ScriptOKNil || rq.OracleScriptID == world.ScriptW4 || rq.OracleScriptID == world.ScriptDesc,
 			})
 		} else {
 			reqs = append(reqs, tf.M{"present": false})
@@ -300,6 +300,8 @@ func (s *session) apply(step tf.M) {
 			osid = world.ScriptOKNil
 		} else if (k.GetRequestCount(s.r.Ctx)+uint64(ask)+uint64(min))%3 == 1 {
 			osid = world.ScriptW4 // reads its calldata again at execution and echoes every report it can see
+		} else if (k.GetRequestCount(s.r.Ctx)+uint64(ask)+uint64(min))%6 == 5 {
+			osid = world.ScriptDesc // asks for its external ids in non-ascending order
 		}
 		before := k.GetRequestCount(s.r.Ctx)
 		clientID := fmt.Sprintf("cl-%d", before+1)
